@@ -26,9 +26,16 @@ func c13GrammarP(r *mon.Run, s string, pinned bool) (*ljson.Number, bool) {
 	var n *ljson.Number
 	var err error
 	cs := map[string]any{"kind": "grammar", "s": s}
-	if p := mon.Guard(func() { n, err = ljson.NewNumber(cbytes.NewBytes(s)) }); p != nil {
+	// the text is handed over in a buffer of the caller's (no spare capacity
+	// behind it) that is reused for something else as soon as NewNumber returns:
+	// the number is the one that was written when it was made
+	buf := exactBytes(s)
+	if p := mon.Guard(func() { n, err = ljson.NewNumber(cbytes.NewBytes(buf)) }); p != nil {
 		r.Violate("panic", "NewNumber/"+p.Site, fmt.Sprintf("NewNumber(%q) panicked: %s", s, p.Value), cs)
 		return nil, false
+	}
+	for i := range buf {
+		buf[i] = '7'
 	}
 	want := ref.JSONNumberRE.MatchString(s)
 	if ref.ZeroExp(s) && !pinned {
@@ -124,6 +131,12 @@ func c13Pair(r *mon.Run, a, b string, na, nb *ljson.Number) {
 		}
 	}()
 	if p := mon.Guard(func() {
+		if small {
+			// reading a number as a float is read-only too (the float itself is not judged: ToFloat gives up with a
+			// panic beyond the float64 range, which is outside the statement)
+			mon.Guard(func() { _ = na.ToFloat() })
+			mon.Guard(func() { _ = nb.ToFloat() })
+		}
 		got = na.Cmp(nb)
 		eq, gt, gte, lt, lte = na.Equal(nb), na.GreaterThan(nb), na.GreaterThanOrEqual(nb), na.LessThan(nb), na.LessThanOrEqual(nb)
 	}); p != nil {
@@ -412,7 +425,7 @@ func init() {
 				c13Pair(r, c.A, c.B, na, nb)
 			}
 		},
-		Rule:               "grammar: every string over {0 1 9 - + . e E x : /} up to length 6 (quick) / 8 (thorough) is given to NewNumber and compared with the RFC 8259 number regex; for accepted strings String() must be a plain numeral denoting the same exact decimal and LengthOfFractionalPart() the number of significant fraction digits. exponents spelled with up to 40 leading zeros; 13 mantissa shapes x 8 exponents around the resource bound (a text that is accepted there must compare with its own mantissa as exact arithmetic says). order of calls: each of 20 refused texts (grammar, exponent beyond the resource bound, empty, foreign bytes) is followed by fully judged parses of 15 plain numbers, and one random pair in 50 is preceded by a refused huge-exponent text. comparison: all ordered pairs of the grammatical strings of length <= 5 over {0 1 9 - . e E +}, plus random pairs with up to 46 mantissa digits and exponents up to 3000 (equal-by-shift, last-digit neighbours, unrelated), each compared both ways: Cmp/Equal/GT/GTE/LT/LTE vs exact decimal comparison, and String() / LengthOfFractionalPart() of both operands unchanged by the comparison (cross-checked with math/big.Rat for small exponents). distinct_nontrivial = distinct strings and pairs (hashed).",
+		Rule:               "grammar: every string over {0 1 9 - + . e E x : /} up to length 6 (quick) / 8 (thorough) is given to NewNumber (in a caller's buffer that is overwritten as soon as the call returns) and compared with the RFC 8259 number regex; for accepted strings String() must be a plain numeral denoting the same exact decimal and LengthOfFractionalPart() the number of significant fraction digits. exponents spelled with up to 40 leading zeros; 13 mantissa shapes x 8 exponents around the resource bound (a text that is accepted there must compare with its own mantissa as exact arithmetic says). order of calls: each of 20 refused texts (grammar, exponent beyond the resource bound, empty, foreign bytes) is followed by fully judged parses of 15 plain numbers, and one random pair in 50 is preceded by a refused huge-exponent text. comparison: all ordered pairs of the grammatical strings of length <= 5 over {0 1 9 - . e E +}, plus random pairs with up to 46 mantissa digits and exponents up to 3000 (equal-by-shift, last-digit neighbours, unrelated), each compared both ways: Cmp/Equal/GT/GTE/LT/LTE vs exact decimal comparison, and String() / LengthOfFractionalPart() of both operands unchanged by the comparison and by ToFloat() (cross-checked with math/big.Rat for small exponents). distinct_nontrivial = distinct strings and pairs (hashed).",
 		MinNontrivialQuick: 200000, MinNontrivialThorough: 2000000,
 		Assumptions: []string{"reference: harness/internal/ref/decimal.go (exact normalised decimals) cross-checked against math/big.Rat", "exponents with more than 3000 in magnitude are only probed at a few fixed points (memory)"},
 		Exhaustive:  "all strings up to the stated length over the 9-byte alphabet; all ordered pairs of grammatical strings up to the stated length",
